@@ -87,8 +87,11 @@ def make_filter(spec, rec, inc):
                 out[spec.get('rename', {}).get(t, t)] = Frame(d)
             if spec.get('as_frame') and list(out) == ['main']:
                 return out['main']
-            if spec.get('empty'):
+            if spec.get('empty') or (seqs & set(spec.get('empty_at', ()))):
                 return {}
+            for q in seqs:
+                for t in spec.get('drop', {}).get(q, ()):
+                    out.pop(t, None)
             return out
     F.__name__ = 'F_' + fid
     return F
